@@ -141,7 +141,7 @@ func (e *evaluator) eval1(x ast.Expr) *Term {
 		return mk("deref", in)
 	case *ast.IndexExpr:
 		xt, it := e.eval(x.X), e.eval(x.Index)
-		if it.Op == "key" && len(it.A) == 1 && it.A[0].Eq(xt) {
+		if (it.Op == "key" && len(it.A) == 1 && it.A[0].Eq(xt)) || (it.Op == "keyfrom" && len(it.A) == 2 && it.A[1].Eq(xt)) {
 			// x[i] with i ranging over x: the element under iteration (in range by construction)
 			return mk("elem", xt).withType(e.typeOf(x))
 		}
@@ -252,6 +252,10 @@ func (e *evaluator) evalVar(v *types.Var) *Term {
 		return atom("K").withType(T)
 	}
 	if v.Pkg() != nil && v.Parent() == v.Pkg().Scope() {
+		// a package variable that only ever holds its literal initialiser (a table of constants / function values)
+		if lit := e.p.globalLiteral(v); lit != nil {
+			return lit
+		}
 		return atom("@" + qname(v)).withObj(v).withType(T)
 	}
 	if e.st != nil {
@@ -438,6 +442,14 @@ func (e *evaluator) inlineable(g *Func) bool {
 			return false
 		}
 	}
+	// parameterless one-line value helpers (a named constant written as a function)
+	if n == 1 && len(g.Params) == 0 && g.Recv == nil && len(ret.Results) == 1 && g.pkgName() != "service" {
+		if c, ok := ast.Unparen(ret.Results[0]).(*ast.CallExpr); ok && len(c.Args) == 0 {
+			if fo, ok := typeutil.Callee(g.Pkg.TypesInfo, c).(*types.Func); ok && e.p.FuncByObj[fo] == nil {
+				return true
+			}
+		}
+	}
 	// only constructors (composite literal results) and iterator wrappers
 	for _, r := range g.Res {
 		T := r.Type()
@@ -544,6 +556,26 @@ func (e *evaluator) evalCall(call *ast.CallExpr) *Term {
 					ci.recv = ci.fun.A[1]
 				}
 			}
+		}
+		if ci.fn != nil && ci.fn.Decl != nil && ci.fn.Obj != nil {
+			// a call through a function value that is a known declared function is that function's call
+			ci.name = ci.fn.Name
+			ci.callee = ci.fn.Obj
+			result = e.callTerm(ci)
+			// a record-building helper held in a function value: its value on these arguments
+			if result.Op == ci.fn.Name && namedStruct(e.typeOf(call)) != "" {
+				if v := e.p.valueSummary(ci.fn); v != nil {
+					m := map[string]*Term{}
+					for i, a := range ci.args {
+						m[fmt.Sprintf("P%d", i)] = a
+					}
+					if ci.recv != nil {
+						m["Precv"] = ci.recv
+					}
+					result = v.Subst(m)
+				}
+			}
+			break
 		}
 		result = &Term{Op: "dyn", A: append([]*Term{ci.fun}, ci.args...)}
 	}
